@@ -1,6 +1,7 @@
 package main
 
 import (
+	"unsafe"
 	"bytes"
 	"fmt"
 	"sync"
@@ -54,14 +55,36 @@ type roCall struct {
 	run  func() string
 }
 
-func (c *Ctx) aliasCheck(key string, flat []byte, calls []roCall) {
+// outerHeaders records which memory every element of a caller-owned slice of byte slices points to:
+// a read-only call must not rearrange or overwrite the caller's outer slice either
+func outerHeaders(vs [][]byte) string {
+	out := ""
+	for _, v := range vs {
+		out += fmt.Sprintf("%p:%d:%d;", unsafe.SliceData(v), len(v), cap(v))
+	}
+	return out
+}
+
+func (c *Ctx) aliasCheck(key string, flat []byte, calls []roCall, outer ...[][]byte) {
 	pkg0 := pkgSnapshot()
 	single := make([]string, len(calls))
 	for i, call := range calls {
 		snap := append([]byte(nil), flat...)
+		var hdr0 []string
+		var hdrCopy [][][]byte
+		for _, o := range outer {
+			hdr0 = append(hdr0, outerHeaders(o))
+			hdrCopy = append(hdrCopy, append([][]byte(nil), o...))
+		}
 		single[i] = safe(call.run)
 		c.oracle()
 		c.stats.Ops++
+		for oi, o := range outer {
+			if outerHeaders(o) != hdr0[oi] {
+				c.violate("C17", "", fmt.Sprintf("%s rearranged or overwrote the caller's slice of inputs (element headers changed; layout %s)", call.name, key), "", []string{call.name})
+				copy(o, hdrCopy[oi])
+			}
+		}
 		if !bytes.Equal(snap, flat) {
 			first := 0
 			for first < len(flat) && snap[first] == flat[first] {
@@ -257,7 +280,7 @@ func streamAlias(c *Ctx) {
 					})
 				}
 			}
-			c.aliasCheck("tx views "+trunc(sc.desc, 80), flat, calls)
+			c.aliasCheck("tx views "+trunc(sc.desc, 80), flat, calls, views)
 			c.dist("tx-views")
 		}
 	}
